@@ -5,7 +5,7 @@ from ..loops import recursion_cycles
 from ..locks import regions
 from ..mir import callee_name
 from ..exprs import short_callee
-from ._totality import report_sites, report_loops, report_divs, sanitize
+from ._totality import report_sites, report_loops, report_divs, sanitize, exc_lookup
 from ..spec.triage import C14_EXCEPTIONS, C14_LOOP_EXCEPTIONS, C14_DIV_EXCEPTIONS, CUSTOM_ITER_OK, RECURSION_OK
 from .. import types as T
 
@@ -75,7 +75,7 @@ def lock_panics(ctx, rule, prog, inv, exceptions):
                     bad.append((fn2, s))
         # sites covered by a C14 exception (reason valid for any model) do not count
         assign_keys(prog, [s for _, s in bad], "c14.panic")
-        bad = [(f, s) for (f, s) in bad if sanitize(s["key"]) not in exceptions]
+        bad = [(f, s) for (f, s) in bad if not exc_lookup(exceptions, sanitize(s["key"]))]
         if bad:
             f, s = bad[0]
             ctx.violation(rule, key, "%d unguarded may-panic sites reachable while %s is locked (e.g. `%s` on %s at %s): a panic there poisons the mutex and every later "
